@@ -146,6 +146,12 @@ func StatementPrecedence(stmt StatementNode) uint8 {
 	}
 }
 
+// Lowest precedence of the left operand of `match` (bitwise or)
+const matchOperandPrecedence = 70
+
+// Precedence of the range operators `...`, `<..`, `..<`, `<.<`
+const rangeLiteralPrecedence = 160
+
 func ExpressionPrecedence(expr ExpressionNode) uint8 {
 	switch e := expr.(type) {
 	case *LabeledExpressionNode:
@@ -174,7 +180,8 @@ func ExpressionPrecedence(expr ExpressionNode) uint8 {
 			return 50
 		}
 	case *MatchExpressionNode:
-		return 55
+		// the pattern extends as far to the right as possible, including `||` and `&&`
+		return 35
 	case *BinaryExpressionNode:
 		switch e.Op.Type {
 		case token.PIPE_OP:
@@ -204,7 +211,11 @@ func ExpressionPrecedence(expr ExpressionNode) uint8 {
 			return 190
 		}
 	case *RangeLiteralNode:
-		return 160
+		if e.End == nil {
+			// nothing can follow an endless range without parentheses
+			return 20
+		}
+		return rangeLiteralPrecedence
 	case *AsExpressionNode:
 		return 170
 	case *UnaryExpressionNode, *BoxOfExpressionNode:
